@@ -326,6 +326,11 @@ def install(ctx):
     def clone(ip, pc, args, dt):
         return read_loc(args[0].loc)
 
+    @M.reg('<Clone>::clone_from')
+    def clone_from(ip, pc, args, dt):
+        write_loc(args[0].loc, deref_all(args[1]))
+        return UNIT
+
     @M.reg('<ToOwned>::to_owned')
     def to_owned(ip, pc, args, dt):
         return deref_all(args[0])
@@ -476,6 +481,14 @@ def install(ctx):
         if h:
             return h(ip)
         return NotImplemented
+
+    @M.reg('<Fn>::call', '<FnMut>::call_mut', '<FnOnce>::call_once')
+    def fn_call(ip, pc, args, dt):
+        # a generic `impl Fn(..)` parameter called through the trait: callee value + tuple of arguments
+        f, tup = args[0], args[1]
+        actual = list(tup.fields) if isinstance(tup, Agg) else [tup]
+        r = yield from ip.call_closure(f, actual)
+        return r
 
     @M.reg('mem::take')
     def mem_take(ip, pc, args, dt):
